@@ -123,3 +123,75 @@ def sliceU : Unpack Bytes := fun _ buf off =>
   .ok (off + declLen buf off, (buf.drop off).take (declLen buf off))
 
 end Pox.Framing
+
+/-! ## The switch-side loop with its answers (C10: "answered with an error and skipped, or that one connection is closed")
+
+`swLoopT` is `swLoop` keeping the whole trace of what a pass over the buffer did, including the error replies of
+`OFConnection._error_handler` (pox/datapaths/switch.py) and the `starting` flag that decides whether a wrong-version
+peer is told HELLO_FAILED before the connection is closed. -/
+namespace Pox.Framing
+
+inductive SwEv (Msg : Type)
+  /-- the window `w` was decoded to `m` and handed to the message handler -/
+  | deliver (w : Bytes) (m : Msg)
+  /-- the window `w` was skipped and answered with OFPET_BAD_REQUEST / `code` (1 = BAD_TYPE: no decoder for the type;
+      6 = BAD_LEN: the decoder raised or consumed another length), carrying the xid of `w` and its first 64 bytes -/
+  | skip (w : Bytes) (code : Nat)
+  /-- wrong version on a connection that has not yet delivered anything: HELLO_FAILED / INCOMPATIBLE with this xid, then close -/
+  | helloFailed (xid : Nat)
+  /-- closed without a reply (wrong version later on; a declared length below 8) -/
+  | close
+  deriving Repr
+
+def SwEv.win {Msg} : SwEv Msg → Bytes
+  | .deliver w _ => w
+  | .skip w _ => w
+  | _ => []
+
+def SwEv.msg? {Msg} : SwEv Msg → Option Msg
+  | .deliver _ m => some m
+  | _ => none
+
+/-- `_extract_message_xid`: bytes 4..8 when a whole header is there, else 0 -/
+def xidOf (b : Bytes) : Nat := if b.length ≥ 8 then beDec ((b.drop 4).take 4) else 0
+
+/-- the error message an event puts on the wire: (type, code, xid, data) -/
+def SwEv.reply {Msg} : SwEv Msg → Option (Nat × Nat × Nat × Bytes)
+  | .skip w code => some (1, code, xidOf w, w.take 64)
+  | .helloFailed xid => some (0, 0, xid, "Version unsupported".toUTF8.toList)
+  | _ => none
+
+/-- returns (remaining buffer, trace, status, starting) -/
+def swLoopT {Msg} (U : Unpack Msg) : Nat → Bool → Bytes → List (SwEv Msg) → Bytes × List (SwEv Msg) × Status × Bool
+  | 0, starting, buf, ev => (buf, ev, .alive, starting)
+  | fuel+1, starting, buf, ev =>
+    if buf.length < 4 then (buf, ev, .alive, starting) else
+    if byteAt buf 0 ≠ 1 then
+      (buf, ev ++ [if starting then .helloFailed (xidOf buf) else .close], .closed, starting) else
+    let n := declLen buf 0
+    if n < 8 then (buf, ev ++ [.close], .closed, starting) else
+    if n > buf.length then (buf, ev, .alive, starting) else
+    match U (byteAt buf 1) buf 0 with
+    | .none => swLoopT U fuel starting (buf.drop n) (ev ++ [.skip (buf.take n) 1])
+    | .raise => swLoopT U fuel starting (buf.drop n) (ev ++ [.skip (buf.take n) 6])
+    | .ok (off', m) =>
+      if off' ≠ n then swLoopT U fuel starting (buf.drop n) (ev ++ [.skip (buf.take n) 6])
+      else swLoopT U fuel false (buf.drop n) (ev ++ [.deliver (buf.take n) m])
+
+structure CST (Msg : Type) where
+  buf : Bytes
+  trace : List (SwEv Msg)
+  st : Status
+  starting : Bool
+
+def initT {Msg} : CST Msg := { buf := [], trace := [], st := .alive, starting := true }
+
+def swFeedT {Msg} (U : Unpack Msg) (s : CST Msg) (chunk : Bytes) : CST Msg :=
+  match s.st with
+  | .alive =>
+    let buf := s.buf ++ chunk
+    let r := swLoopT U (buf.length + 1) s.starting buf s.trace
+    { buf := r.1, trace := r.2.1, st := r.2.2.1, starting := r.2.2.2 }
+  | _ => s
+
+end Pox.Framing
